@@ -326,6 +326,44 @@ pub fn run(tier: Tier) -> i32 {
         });
         st = st.merge(sl);
     }
+    // sparse ladder of very long inputs whose error (if any) lies near the start, multi-byte
+    // units at every alignment; errors are also rendered (Display) -- truncation / width limits live here
+    {
+        let sizes: Vec<usize> = tier.pick(vec![500, 1000, 1023, 1024, 1025, 2047, 2048, 2049, 4095, 4096, 4097, 8192, 32767, 32768, 65534, 65535, 65536, 65537], vec![500, 1000, 1023, 1024, 1025, 2047, 2048, 2049, 4095, 4096, 4097, 8191, 8192, 8193, 16384, 32767, 32768, 32769, 65533, 65534, 65535, 65536, 65537, 70000, 131072, 262144]);
+        let heads = ["abs('", "=== '", "nosuch(@) || '", "a.b.c | length('", "'", "\"", "`\"", "\n\nabs('", "[?a == '", "to_number('"];
+        let units = ["a", "é", "😀", "\u{301}", "\u{200d}"];
+        let jobs: Vec<(usize, usize, usize)> = sizes.iter().flat_map(|&n| (0..heads.len()).flat_map(move |h| (0..units.len()).map(move |u| (n, h, u)))).collect();
+        let sl = par_sweep(jobs, |&(n, h, u), st| {
+            for pad in 0..4 {
+                let body = units[u].repeat(n / units[u].len().max(1));
+                let tail = match heads[h] {
+                    x if x.ends_with('\'') => "')",
+                    x if x.ends_with("`\"") => "\"`",
+                    _ => "\"",
+                };
+                for closed in [true, false] {
+                    let s = format!("{}{}{}{}", heads[h], "x".repeat(pad), body, if closed { tail } else { "" });
+                    st.states += 1;
+                    st.evaluations += 1;
+                    st.validated += 1;
+                    let r = watched("long sparse ladder", || {
+                        guarded(|| match jmespath::compile(&s) {
+                            Err(e) => e.to_string().len(),
+                            Ok(x) => match x.search(()) {
+                                Ok(v) => v.to_string().len(),
+                                Err(e) => e.to_string().len(),
+                            },
+                        })
+                    });
+                    match r {
+                        Ok(_) => st.outcome("long input handled (compile, search, render)"),
+                        Err(m) => st.violate(Violation { key: panic_key(&m), check: "long-sparse-ladder".into(), case: json!({"kind": "ladder", "head": heads[h], "unit": units[u], "n": n, "pad": pad, "closed": closed}), expected: "Ok or Err, and the error renders".into(), actual: format!("panic: {}", m) }),
+                    }
+                }
+            }
+        });
+        st = st.merge(sl);
+    }
     // builtins on documents of extreme numeric magnitude
     {
         let docs = [json!([1e308, 1e308]), json!([-1e308, -1e308, -1e308]), json!([u64::MAX, u64::MAX]), json!([i64::MIN, -1]), json!([5e-324, 5e-324]), json!([1e308, -1e308, 1e308]), json!(1e308), json!(u64::MAX), json!(i64::MIN), json!({"a": 1e308, "b": -1e308}), json!([[1e308], [1e308]]), json!(["1e999", "-1e999", "1e308"])];
